@@ -205,7 +205,7 @@ ETYPE_FOR = {'probe': 'p', 'input': 'put', 'counter': 'inc', 'fsm': 'toggle', 'r
 
 def gen(ctx):
     rng = ctx.rng('gen')
-    n = 600 if ctx.tier == "quick" else 90000
+    n = 1800 if ctx.tier == "quick" else 90000
     for _ in range(n):
         nb = rng.randrange(2, 7)
         blocks = []
